@@ -368,3 +368,135 @@ theorem goFld_bisim {R : KeySrc → KeySrc → Prop} (hR : Bisim R) (io : Io) (o
 end
 
 end MiniconfVerif
+
+namespace MiniconfVerif
+set_option autoImplicit false
+
+theorem applyValidator_leaf (a : Attrs) (op : Op) (o : Out) : (applyValidator a op o).leaf = o.leaf := by
+  unfold applyValidator
+  split
+  · split <;> rfl
+  · rfl
+
+theorem leafOp_ser_val (io : Io) (k : LeafKind) (v0 v : Val) (ty : Ty) (hv : (leafOp io .ser k v0).val = some v)
+    (hk : (leafOp io .ser k v0).leaf = some (.leaf ty)) : k = .leaf ty ∧ v = v0 := by
+  have hk' : k = .leaf ty := by
+    cases k <;> simp_all [leafOp]
+  subst hk'
+  refine ⟨rfl, ?_⟩
+  simp only [leafOp] at hv
+  split at hv
+  · simp only [Option.some.injEq] at hv; exact hv.symm
+  · cases hv
+
+mutual
+/-- **Write-back is the identity**: if serializing by a key yields the value `v` of a plain
+leaf, then deserializing `v` by the same key leaves the whole tree unchanged, whatever the
+write's outcome (denied, refused by an accessor, validated, rejected) -/
+theorem walk_writeback (io io' : Io) (v : Val) (ty : Ty) (hdec : io'.dec (.leaf ty) = some v) :
+    ∀ (t : Tree) (ks : KeySrc), (t.walk io .ser ks).val = some v → (t.walk io .ser ks).leaf = some (.leaf ty) →
+      (t.walk io' .de ks).tree = t
+  | .leaf k v0, ks => by
+    simp only [Tree.walk]
+    cases hf : ks.finalize with
+    | error e => simp
+    | ok u =>
+      simp only []
+      intro hv hk
+      obtain ⟨rfl, rfl⟩ := leafOp_ser_val io k v0 v ty hv hk
+      simp [leafOp, hdec]
+  | .gate g closed inner, ks => by
+    simp only [Tree.walk]
+    cases hg : gateErr g .ser closed with
+    | some e => simp
+    | none =>
+      simp only []
+      intro hv hk
+      cases hg2 : gateErr g .de closed with
+      | some e => rfl
+      | none => simp only [walk_writeback io io' v ty hdec inner ks hv hk]
+  | .array elems, ks => by
+    simp only [Tree.walk]
+    cases hn : ks.next (.homog elems.length) with
+    | error e => simp
+    | ok r =>
+      obtain ⟨i, ks'⟩ := r
+      simp only []
+      intro hv hk
+      simp only [goArr_writeback io io' v ty hdec elems i ks' hv hk]
+  | .node flat active lk fs, ks => by
+    simp only [Tree.walk]
+    cases hn : (if flat then Except.ok (0, ks) else ks.next lk) with
+    | error e => simp
+    | ok r =>
+      obtain ⟨i, ks'⟩ := r
+      simp only []
+      have hg := goFld_writeback io io' v ty hdec fs i ks'
+      cases active with
+      | none =>
+        simp only []
+        intro hv hk
+        simp only [hg hv hk]
+      | some act =>
+        simp only []
+        by_cases ha : act = some i
+        · simp only [ha, if_true]
+          intro hv hk
+          simp only [hg hv hk]
+        · simp [ha]
+theorem goArr_writeback (io io' : Io) (v : Val) (ty : Ty) (hdec : io'.dec (.leaf ty) = some v) :
+    ∀ (es : List Tree) (i : Nat) (ks : KeySrc), (Tree.walk.goArr io .ser es i ks).1.val = some v →
+      (Tree.walk.goArr io .ser es i ks).1.leaf = some (.leaf ty) → (Tree.walk.goArr io' .de es i ks).2 = es
+  | [], _, _ => fun _ _ => rfl
+  | t :: rest, 0, ks => by
+    simp only [Tree.walk.goArr]
+    intro hv hk
+    simp only [walk_writeback io io' v ty hdec t ks hv hk]
+  | t :: rest, i + 1, ks => by
+    simp only [Tree.walk.goArr]
+    intro hv hk
+    simp only [goArr_writeback io io' v ty hdec rest i ks hv hk]
+theorem goFld_writeback (io io' : Io) (v : Val) (ty : Ty) (hdec : io'.dec (.leaf ty) = some v) :
+    ∀ (fs : List (Attrs × Tree)) (i : Nat) (ks : KeySrc), (Tree.walk.goFld io .ser fs i ks).1.val = some v →
+      (Tree.walk.goFld io .ser fs i ks).1.leaf = some (.leaf ty) → (Tree.walk.goFld io' .de fs i ks).2 = fs
+  | [], _, _ => fun _ _ => rfl
+  | (a, t) :: rest, 0, ks => by
+    simp only [Tree.walk.goFld]
+    cases hd : a.deny .ser with
+    | some msg => simp
+    | none =>
+      simp only []
+      have hread : ∀ o : Out, applyValidator a .ser o = o := fun o => applyValidator_read a .ser rfl o
+      cases hgt : a.getter .ser with
+      | some r =>
+        obtain ⟨ev, m⟩ := r
+        cases m with
+        | some msg => simp
+        | none =>
+          simp only [hread]
+          intro hv hk
+          cases a.deny .de with
+          | some msg => rfl
+          | none =>
+            simp only []
+            split
+            · rfl
+            · simp only [applyValidator_tree, walk_writeback io io' v ty hdec t ks hv hk]
+      | none =>
+        simp only [hread]
+        intro hv hk
+        cases a.deny .de with
+        | some msg => rfl
+        | none =>
+          simp only []
+          split
+          · rfl
+          · simp only [applyValidator_tree, walk_writeback io io' v ty hdec t ks hv hk]
+  | f :: rest, i + 1, ks => by
+    obtain ⟨a, t⟩ := f
+    simp only [Tree.walk.goFld]
+    intro hv hk
+    simp only [goFld_writeback io io' v ty hdec rest i ks hv hk]
+end
+
+end MiniconfVerif
